@@ -7,7 +7,7 @@ from .. import common as C
 from .. import schemarun as R
 
 LEVEL = "proof"
-N = {"quick": 20000, "thorough": 300000}
+N = {"quick": 20000, "thorough": 200000}
 
 CYCLE_WITNESS = {"schema": {"definitions": {"a": {"allOf": [{"$ref": "#/definitions/a"}]}},
                             "allOf": [{"$ref": "#/definitions/a"}]}, "data": 1, "root": ""}
